@@ -10,9 +10,18 @@ cp "$D/demo.py" "$W/_demo.py"
 ( cd "$W" && git apply "$D/patch.diff" && PYTHONPATH="$W" /venv/bin/python _demo.py >/dev/null 2>&1; echo "demo with change: exit=$?" )
 git -C /repo worktree remove --force "$W"
 cd /verif
+if [ -n "$SEED_SCRATCH" ]; then
+  # while other work reads /repo: apply the change to a scratch worktree and point the check at it (same overlay construction)
+  W2=$(mktemp -d /var/tmp/seedwt.XXXXXX); rmdir "$W2"
+  git -C /repo worktree add -f "$W2" HEAD -q || exit 3
+  ( cd "$W2" && git apply "$D/patch.diff" ) || { echo "patch does not apply"; git -C /repo worktree remove --force "$W2"; exit 3; }
+  PYVC_REPO="$W2" PYVC_NO_KILLS=1 PYVC_EVIDENCE_DIR=/var/tmp/seed_ev PYVC_REPLAY_DIR=/var/tmp/seed_rp ./check "$P" > /var/tmp/seed_check.out 2>&1; RC=$?
+  git -C /repo worktree remove --force "$W2"
+else
 git -C /repo apply "$D/patch.diff" || { echo "patch does not apply to /repo"; exit 3; }
 PYVC_NO_KILLS=1 PYVC_EVIDENCE_DIR=/var/tmp/seed_ev PYVC_REPLAY_DIR=/var/tmp/seed_rp ./check "$P" > /var/tmp/seed_check.out 2>&1; RC=$?
 git -C /repo checkout -- .
+fi
 echo "check $P exit=$RC"; grep -c '^VIOLATION' /var/tmp/seed_check.out | sed 's/^/violation lines: /'; grep '^VIOLATION' /var/tmp/seed_check.out | sed 's/.*obligation=//; s/replay=.*replays\///' | cut -c1-200 | head -6
 grep -v '^VIOLATION\|^KNOWN' /var/tmp/seed_check.out | tail -3
 rm -rf /var/tmp/seed_ev /var/tmp/seed_rp
